@@ -604,7 +604,7 @@ def gen_valid_rhs_spec(rng):
 
 # ------------------------------------------------------------------------------------ solver scaling (C08)
 
-def with_scaling(spec, rng, pow2=True, route='add', only=None):
+def with_scaling(spec, rng, pow2=True, route='add', only=None, prefer_group=False):
     """copy of spec with random positive and negative ref / ref0 / res_ref on outputs (scalar and array).
     pow2: ref - ref0 and res_ref are +-2^k (binary64 arithmetic of the scaling stays exact).
     route: 'add' -> add_output arguments; 'sso' -> System.set_output_solver_options (called on the component or on
@@ -623,6 +623,9 @@ def with_scaling(spec, rng, pow2=True, route='add', only=None):
     read = [tuple(i['src']) for c in s2['comps'] for i in c['ins'] if i['src'] is not None]
     chosen = None
     if only is not None:
+        if prefer_group:     # an output that lives in a sub-group and is read by something (approx_totals groups)
+            ingrp = [t for t in read if '.' in s2['comps'][t[0]]['path'] and s2['comps'][t[0]]['kind'] != 'ivc']
+            read = ingrp or read
         chosen = rng.choice(read) if read and rng.random() < 0.8 else rng.choice(allouts)
     for ci, c in enumerate(s2['comps']):
         L = len(c['path'].split('.'))
